@@ -15,3 +15,4 @@ import TemporalModel.Props.C15
 import TemporalModel.Props.C17
 import TemporalModel.Props.C18
 import TemporalModel.Props.C19
+import TemporalModel.Props.C20
